@@ -976,3 +976,44 @@ Section Facts.
     simpl. eapply inv_init_model; [exact KN | exact E].
   Qed.
 End Facts.
+
+(* declaration order: the index (and `names`) only ever grow at the END - nothing is removed, nothing reordered *)
+Lemma good_prefix s s' : good s s' -> (exists l, index s' = index s ++ l) /\ (exists l, names s' = names s ++ l).
+Proof.
+  induction 1 as [s|s s' Hs Hi Hv Hk Hn|s name v0 v' HA HD HS|s name v HN HS|s x Hx|s1 s2 s3 G1 IH1 G2 IH2].
+  - split; exists []; rewrite app_nil_r; reflexivity.
+  - split; exists []; rewrite app_nil_r; assumption.
+  - split; exists []; rewrite app_nil_r; reflexivity.
+  - split; [exists [name]; reflexivity|exists []; rewrite app_nil_r; reflexivity].
+  - split; [exists []; rewrite app_nil_r; reflexivity|exists [x]; reflexivity].
+  - destruct IH1 as [[l1 E1] [m1 F1]]. destruct IH2 as [[l2 E2] [m2 F2]].
+    split; [exists (l1 ++ l2); rewrite E2, E1, app_assoc; reflexivity|exists (m1 ++ m2); rewrite F2, F1, app_assoc; reflexivity].
+Qed.
+
+Section Order.
+  Variable pycast : dtype -> pyval -> outcome pyval.
+  Variable arrcast : dtype -> dtype -> pyval -> outcome pyval.
+  Variable infer : list pyval -> dtype.
+  Variable astype_dt : dtype -> list pyval -> dreq -> dtype.
+  Variable itemseq_exn : dtype -> exn.
+  Notation run := (run pycast arrcast infer astype_dt itemseq_exn).
+  Notation add_variable := (add_variable pycast arrcast infer astype_dt).
+
+  Theorem declaration_order_kept ops s :
+    (exists l, index (run ops s) = index s ++ l) /\ (exists l, names (run ops s) = names s ++ l).
+  Proof. apply good_prefix. apply run_good. Qed.
+
+  (* an accepted add_variable puts the new name LAST (in `index`, and in `names` for models) *)
+  Theorem add_variable_appends name value dt s s' u :
+    add_variable name value dt s = (s', Ret u) ->
+    index s' = index s ++ [name] /\ names s' = names s ++ (match kind s with CVC => [] | _ => [name] end).
+  Proof.
+    unfold Container.add_variable. intros H.
+    destruct (kind s) eqn:K.
+    - apply base_add_variable_ret in H as [BI [BN _]]. rewrite app_nil_r. split; assumption.
+    - destruct (base_add_variable pycast arrcast infer astype_dt name value (match dt with None => dflt s | Some _ => dt end) s) as [s1 [u1|e]] eqn:B; [|inversion H].
+      inversion H; subst. simpl. apply base_add_variable_ret in B as [BI [BN _]]. rewrite BI, BN. split; reflexivity.
+    - destruct (base_add_variable pycast arrcast infer astype_dt name value (match dt with None => dflt s | Some _ => dt end) s) as [s1 [u1|e]] eqn:B; [|inversion H].
+      inversion H; subst. simpl. apply base_add_variable_ret in B as [BI [BN _]]. rewrite BI, BN. split; reflexivity.
+  Qed.
+End Order.
